@@ -9,6 +9,7 @@ from z3 import And, Or, Not, Implies, If, IntVal, BoolVal, Const, Function, Leng
 from . import runtime
 from .symx import (Exec, St, VC, Val, I, B, SeqV, SeqI, NONE, Tup, StrLit, TextV, CharV, Opaque, OutOfSubset, LoopSpec)
 from .solve import discharge
+from .fragver import RoleError as _RoleError
 
 
 class Rope:
@@ -165,12 +166,14 @@ def verify_rt(contract, cfg, both=False):
         if n == 0:
             res['error'] = ('vacuous', 'no feasible path')
         nrep = 0
+        infeasible_paths = set()
+        ncover = sum(1 for vc in vcs if vc.kind == 'cover')
         for vc in vcs:
             small = [[cx.N <= b] for b in (3, 8, 40, 200)] if vc.kind != 'cover' else None
             v = discharge(vc, ex.axioms, both=both and vc.kind != 'cover', small=small)
             if vc.kind == 'cover':
                 if v.status == 'unsat':
-                    res['error'] = ('vacuous', f'contradictory path condition {vc.path}')
+                    infeasible_paths.add(tuple(vc.path or ()))      # explored but infeasible: its VCs hold vacuously, not counted
                 continue
             d = v.brief()
             d['path'] = v.path
@@ -186,6 +189,8 @@ def verify_rt(contract, cfg, both=False):
                     except Exception as e:
                         d['replay'] = {'reproduced': None, 'reason': f'replay crashed: {type(e).__name__}: {e}'}
             res['verdicts'].append(d)
+        if ncover and len(infeasible_paths) >= ncover:
+            res['error'] = ('vacuous', 'every explored path has a contradictory path condition')
         # failed VCs without a natively reproduced counter-model: look for a concrete failing input with the
         # bounded native stand-in (all small inputs) and attach it as the replay
         failed = [d for d in res['verdicts'] if d['verdict'] == 'sat' and not (d.get('replay') or {}).get('reproduced')]
@@ -200,8 +205,8 @@ def verify_rt(contract, cfg, both=False):
                 for d in failed:
                     d['replay'] = {'reproduced': True, 'violated': bad[:3], 'bound': bound, 'tried': tried,
                                    'how': 'concrete failing input found by evaluating the contract natively on all small inputs'}
-    except OutOfSubset as e:
-        res['error'] = ('out-of-subset', str(e))
+    except (OutOfSubset, _RoleError) as e:
+        res['error'] = ('out-of-subset' if isinstance(e, OutOfSubset) else 'role', str(e))
         # the function left the verifier's subset: a BOUNDED stand-in (the contract evaluated natively on all small
         # inputs) may still refute it with a concrete input; it never counts as proved
         b = getattr(contract, 'bounded', None)
